@@ -9,7 +9,13 @@ Independent specification of C20, written from the property text (not from the c
   bases — whatever extra mixin bases stand before or after it: plain non-generic classes, and parametrised classes that have
   nothing to do with `GenericMixin` (`class Box(Labelled[str], Generic[T], GenericMixin)` with `class Labelled(Generic[L])`);
   the type arguments of such a mixin are never what `type_vars` reports.  "Subclasses that bind all parameters of their
-  generic base" have exactly one subscripted base (with two of them "their generic base" is not defined: not claimed).
+  generic base" list no `Generic[…]` themselves and have exactly one subscripted base that is a GenericMixin class (a class of
+  the first kind, or a plain subclass of one) — "their generic base" — with all of its parameters bound to types; further
+  subscripted bases that have nothing to do with GenericMixin (`class Odd(Labelled[str], Box[int])`,
+  `class SeqBox(Sequence[int], Box[int])`) may stand anywhere, before or after it, like the plain mixins: the answer is
+  `{Ti: Xi}` of the GenericMixin base.  Not claimed: two subscripted GenericMixin bases, partially bound parameters, a
+  `Generic[…]` re-declared over a GenericMixin base, a binding of a generic class that is NOT a GenericMixin class
+  (`class IntL(Labelled[int], GenericMixin)`), generic classes listed as plain (unsubscripted) mixins, diamonds.
 * `expectedDecorated`: for every member of the enum, the methods (by defining class and name) that are visible on the
   instance and were decorated through `create_decorator(member)`, with the argument of the outermost such application.
 -/
@@ -72,6 +78,15 @@ def foreign (t : Table) : Nat → Nat → Bool
       | .param p _ => foreign t d p
       | .plain p => foreign t d p
 
+/-- `GenericMixin` is the class or one of its ancestors: "a GenericMixin class" -/
+def usesMixin (t : Table) : Nat → Nat → Bool
+  | 0, _ => false
+  | d + 1, c => c == mixinId || (basesOf t c).any fun b =>
+      match b with
+      | .generic _ => false
+      | .param p _ => usesMixin t d p
+      | .plain p => usesMixin t d p
+
 def kindOf (t : Table) : Nat → Nat → Kind
   | 0, _ => .unsupported
   | d + 1, c =>
@@ -84,11 +99,20 @@ def kindOf (t : Table) : Nat → Nat → Kind
       -- GenericMixin class (`class C(A[int], Generic[T])`) makes both sentences of the property apply with different answers:
       -- nothing is claimed there.
       if mixinsOk && decide tvs.Nodup && ps.all (fun p => foreign t d p.1) then .direct tvs else .unsupported
-    | [], [(b, args)] =>                 -- class C(…mixins…, B[X1..Xn], …mixins…)
-      (match kindOf t d b with
-       | .direct tvs =>
-         if mixinsOk && decide (args.length = tvs.length) && args.all TArg.isTy then .bound (pairUp tvs args)
-         else .unsupported
+    | [], p :: ps' =>                    -- class C(…mixins…, B[X1..Xn], …mixins…): no `Generic[…]`, subscripted bases
+      -- "their generic base" is the ONE subscripted base that is a GenericMixin class declaring `Generic[T1..Tn]`; every other
+      -- subscripted base — any number, at any position, before or after it — has nothing to do with GenericMixin (an ordinary
+      -- generic class `Labelled[str]`, a typing alias `Sequence[int]`, `list[int]`) and contributes nothing.  Two subscripted
+      -- GenericMixin bases, or a subscripted base about which neither can be said: nothing is claimed.
+      let ps := p :: ps'
+      (match ps.filter (fun q => usesMixin t d q.1) with
+       | [(b, args)] =>
+         (match kindOf t d b with
+          | .direct tvs =>
+            if mixinsOk && ps.all (fun q => usesMixin t d q.1 || foreign t d q.1)
+                && decide (args.length = tvs.length) && args.all TArg.isTy then .bound (pairUp tvs args)
+            else .unsupported
+          | _ => .unsupported)
        | _ => .unsupported)
     | [], [] =>
       (match bs with
